@@ -453,7 +453,31 @@ def run_reuse(ctx: Ctx, case: dict) -> list[str]:
         probs += table_problems(gcase, gate, "gate object after use")
         if probs:
             break
+    if not probs:
+        # copies of a library gate (plain and with frozen parameters) and the gate wrapped into an empty
+        # circuit of its own size are still that gate
+        import lightworks as lw
+
+        for tag, mk in (("copy()", lambda: gate.copy()), ("copy(freeze_parameters=True)", lambda: gate.copy(freeze_parameters=True)),
+                        ("Circuit(n).add(gate, 0)", lambda: _wrap(lw, gate, width))):
+            try:
+                g2 = mk()
+            except Exception as e:  # noqa: BLE001
+                probs.append(f"oracle: reuse: {tag} of {describe(gcase)} raised {exc_class(e)}")
+                break
+            if g2.input_modes != width:
+                probs.append(f"oracle: reuse: {tag} of {describe(gcase)} has {g2.input_modes} input modes, the gate has {width}")
+                break
+            probs += table_problems(gcase, g2, tag)
+            if probs:
+                break
     return probs
+
+
+def _wrap(lw, gate, width):
+    c = lw.Circuit(width)
+    c.add(gate, 0)
+    return c
 
 
 def gen_reuse(rng) -> dict:
@@ -560,7 +584,8 @@ def run_host(ctx: Ctx, case: dict) -> list[str]:
                      f"common scalar times the ordered product of the named gates (max residual {resid:.3e})")
     if abs(abs(k) ** 2 - float(want_sq)) > TOL:
         probs.append(f"oracle: host: {prog}: |scalar|^2 = {abs(k) ** 2:.12f}, expected {want_sq}")
-    if leak > TOL:
+    has_ps = any(st["gate_case"]["gate"] in ("CZ", "CNOT") for st in case["gates"])
+    if leak > TOL and not has_ps:
         probs.append(f"oracle: host: {prog}: accepted output outside the qubit subspace has amplitude {leak:.3e}")
     return probs
 
@@ -579,12 +604,29 @@ def gen_host(rng) -> dict:
         else:
             gc = dict(rng.choice(singles)) if rng.random() < 0.6 else gen_rotation(rng)
             gates.append({"gate_case": gc, "q": rng.randint(0, nq - 1), "group": rng.random() < 0.5})
+    # at most ONE post-selected gate (two of them sharing a qubit do not compose to a product of gates): it is
+    # exact on the dual-rail subspace, its other accepted outputs are excluded by its own rules, not by heralds
+    if rng.random() < 0.5:
+        g = rng.choice(["CZ", "CNOT"])
+        gc = {"gate": g} if g == "CZ" else {"gate": g, "target": rng.randint(0, 1)}
+        gates.insert(rng.randint(0, len(gates)), {"gate_case": gc, "q": rng.randint(0, nq - 2), "group": rng.random() < 0.6})
     # a gate on the highest qubit last: it sits above every ancilla created before
     gates.append({"gate_case": gen_rotation(rng), "q": nq - 1, "group": rng.random() < 0.5})
     return {"stream": "host", "nq": nq, "gates": gates}
 
 
 HOST_CORPUS = [
+    # many ancillas between the two qubits of the gate added last
+    {"stream": "host", "nq": 4, "gates": [
+        {"gate_case": {"gate": "CZ_Heralded"}, "q": 0, "group": True},
+        {"gate_case": {"gate": "CZ_Heralded"}, "q": 2, "group": True},
+        {"gate_case": {"gate": "CZ"}, "q": 1, "group": True},
+        {"gate_case": {"gate": "H"}, "q": 3, "group": False}]},
+    {"stream": "host", "nq": 3, "gates": [
+        {"gate_case": {"gate": "CNOT_Heralded", "target": 0}, "q": 0, "group": True},
+        {"gate_case": {"gate": "CZ_Heralded"}, "q": 0, "group": False},
+        {"gate_case": {"gate": "CNOT", "target": 1}, "q": 1, "group": True},
+        {"gate_case": {"gate": "T"}, "q": 2, "group": False}]},
     # heralded gates placed out of ascending order (0-1, 1-2, 0-1 again), then gates on higher qubits
     {"stream": "host", "nq": 4, "gates": [
         {"gate_case": {"gate": "CNOT_Heralded", "target": 1}, "q": 0, "group": True},
